@@ -42,3 +42,94 @@ class map_substrates_to_labelmap:
             forall(lambda q: implies(0 <= q and q < _i, at(res, at(labelmap, q)) is at(substrates, q)), "int"),
         ],
     }
+
+
+def Copies(st, n):
+    # total number of entries contributed by the first n species
+    return fold_prefix(lambda acc, k: acc + (st[k] if st[k] > 0 else 0), 0, keys(st), n)
+
+
+@contract("mxlpy.linear_label_map:_stoichiometry_to_duplicate_list")
+class stoichiometry_to_duplicate_list:
+    # every species listed as often as its (positive) coefficient says; nothing else
+    requires = lambda stoichiometry: dict_wf(stoichiometry)
+    ensures = lambda stoichiometry, result: [
+        fresh(result),
+        len(result) == Copies(stoichiometry, len(keys(stoichiometry))),
+        forall(
+            lambda p: implies(
+                0 <= p and p < len(result), at(result, p) in stoichiometry and stoichiometry[at(result, p)] > 0
+            ),
+            "int",
+        ),
+        unchanged(stoichiometry),
+    ]
+    modifies = lambda stoichiometry: []
+    loops = {
+        1: lambda stoichiometry, long_form: [
+            fresh(long_form),
+            unchanged(stoichiometry),
+            len(long_form) == Copies(stoichiometry, _i),
+            forall(
+                lambda p: implies(
+                    0 <= p and p < len(long_form),
+                    at(long_form, p) in stoichiometry and stoichiometry[at(long_form, p)] > 0,
+                ),
+                "int",
+            ),
+        ],
+    }
+
+
+@contract("mxlpy.linear_label_map:_unpack_stoichiometries")
+class unpack_stoichiometries_linear:
+    # species with a negative coefficient are substrates (with the negated coefficient),
+    # all others products; computed coefficients are refused
+    requires = lambda stoichiometries: dict_wf(stoichiometries)
+    raises = {
+        NotImplementedError: lambda stoichiometries: exists(
+            lambda q: 0 <= q and q < len(keys(stoichiometries))
+            and isinstance(stoichiometries[at(keys(stoichiometries), q)], Derived),
+            "int",
+        )
+    }
+    ensures = lambda stoichiometries, result: [
+        forall(
+            lambda k: iff(k in result[0], k in stoichiometries and real(stoichiometries[k]) < 0),
+            "val",
+        ),
+        forall(
+            lambda k: iff(k in result[1], k in stoichiometries and real(stoichiometries[k]) >= 0),
+            "val",
+        ),
+        unchanged(stoichiometries),
+    ]
+    modifies = lambda stoichiometries: []
+    loops = {
+        1: lambda stoichiometries, substrates, products: [
+            fresh(substrates),
+            fresh(products),
+            not (substrates is products),
+            unchanged(stoichiometries),
+            forall(
+                lambda q: implies(0 <= q and q < _i, not isinstance(stoichiometries[at(keys(stoichiometries), q)], Derived)),
+                "int",
+            ),
+            forall(
+                lambda k: iff(
+                    k in substrates,
+                    exists(lambda q: 0 <= q and q < _i and at(keys(stoichiometries), q) is k, "int")
+                    and real(stoichiometries[k]) < 0,
+                ),
+                "val",
+            ),
+            forall(
+                lambda k: iff(
+                    k in products,
+                    exists(lambda q: 0 <= q and q < _i and at(keys(stoichiometries), q) is k, "int")
+                    and real(stoichiometries[k]) >= 0,
+                ),
+                "val",
+            ),
+        ],
+    }
